@@ -43,6 +43,14 @@ TreeJsonOK == rout.tree_json.ok /\ SameBag(rout.tree_json.ids, rq.tree)
 TreeGeoOK(o) == IF AllGeoms(rq.geoms, rq.tree)
                 THEN o.ok /\ SameBag(o.lines, [i \in DOMAIN rq.tree |-> rq.geoms[rq.tree[i] + 1]])      \* one entry per branch
                 ELSE ~o.ok
+(* the output plugin (route + tree in format f, or the route alone): it answers iff everything it was asked for can be
+   rendered, and then carries the route exactly as the format renders it; otherwise it fails - the route never goes
+   silently missing *)
+Geometric(f) == f \in {"geo_json", "wkt", "wkb"}
+RouteRenderable(q, f) == ~Geometric(f) \/ AllGeoms(q.geoms, q.route)
+TreeRenderable(q, f) == ~Geometric(f) \/ AllGeoms(q.geoms, q.tree)
+PluginBothOK(q, f, p) == p.built /\ IF RouteRenderable(q, f) /\ TreeRenderable(q, f) THEN p.ok /\ p.has_route /\ p.same /\ p.has_tree ELSE ~p.ok
+PluginRouteOK(q, f, p) == p.built /\ IF RouteRenderable(q, f) THEN p.ok /\ p.has_route /\ p.same ELSE ~p.ok
 AllFormatsOK == RouteIdsOK /\ RouteJsonOK /\ RouteGeoJsonOK /\ RouteWktOK /\ RouteWkbOK /\ TreeIdsOK /\ TreeJsonOK
                 /\ TreeGeoOK(rout.tree_geo_json) /\ TreeGeoOK(rout.tree_wkt) /\ TreeGeoOK(rout.tree_wkb)
 =============================================================================
